@@ -1,7 +1,23 @@
 """Human-written manifest texts per property."""
 HOOK_COMMITS = ["0db57c5", "986d32b", "2fcd781"]
+CONC_NOTE = ("Trusted base: the reference interpreter for expected values, salsa's public Event stream, the harness's own body/top-level "
+             "log (one SeqCst logical clock), and for C19 the feature-guarded protocol trace emitted under salsa's own locks. Shuttle "
+             "runs the real salsa code with its `shuttle` feature (sequentially consistent, shuttle's lock implementation); because "
+             "shuttle models an unwind through a mutex guard as lock poisoning, workloads with cycle panics or cancellation run only on "
+             "OS threads (real parking_lot, seeded delay injection at failpoints between salsa's critical sections). Nothing is claimed "
+             "beyond the schedules / runs explored for the given seed; no weak-memory behaviours except under TSan's detection in the "
+             "thorough tier.")
 ENGINES = [
-    {"name": "E-single", "path": "/verif/harness (svh run, native cfg)", "serves_properties": [], "kind_free_text":
+    {"name": "E-sched", "path": "/verif/harness (svh run --sub sched, cfg sched = salsa feature shuttle)", "serves_properties":
+     ["C08", "C11", "C16", "C17", "C18", "C19", "C24"], "kind_free_text":
+     "schedule fuzzing of the real code with shuttle's random / PCT / uniform-random-walk schedulers; monitors are the oracle; exact "
+     "deadlock detection and a step bound; deterministic replay from the case seed"},
+    {"name": "E-os", "path": "/verif/harness (svh run --sub os, cfg native / tsan)", "serves_properties":
+     ["C08", "C14", "C16", "C17", "C18", "C19", "C20", "C21", "C24"], "kind_free_text":
+     "real OS threads on database clones with seeded delay injection (yield / spin / sleep profiles) at feature-guarded failpoints "
+     "between salsa's critical sections; watchdog + protocol-trace analysis for stuck states; ThreadSanitizer build in the thorough tier"},
+    {"name": "E-single", "path": "/verif/harness (svh run, native cfg)", "serves_properties":
+     ["C01", "C02", "C03", "C04", "C05", "C06", "C07", "C09", "C10", "C11", "C12", "C13", "C14", "C15"], "kind_free_text":
      "single handle, single thread: seeded program+history generator, reference interpreter as value oracle, event-log monitors"},
 ]
 NOTES = ("Runtime monitoring only: every verdict comes from an oracle over executions of the real salsa code. "
@@ -11,7 +27,8 @@ SINGLE_NOTE = ("Trusted base: the harness's reference interpreter (cross-checked
                "of requests, disagreement => inconclusive), the generated program family (interpreter-shaped generic tracked "
                "functions), salsa's public Event stream and the harness's own body log. Nothing is claimed beyond the "
                "executions produced for the given seed.")
-def E(tech, text, note=SINGLE_NOTE, engine="E-single"):
+def E(tech, text, note=None, engine="E-single"):
+    note = note or SINGLE_NOTE
     return {"engine": engine, "technique": "runtime monitoring: " + tech, "text": text, "note": note}
 
 
@@ -85,3 +102,54 @@ META = {
              "'too many cycle iterations' panic (or a propagated panic for re-requests in the same revision) and never exceed the logical "
              "step bound; after a write that makes the bodies monotone all values must equal the least fixpoint."),
 }
+
+CVOL = ("Exploration: every case is run under ~20 (quick) / 40 (thorough) schedules or timed runs; quick explores ~3*10^5 shuttle schedules "
+        "and ~10^4 OS-thread runs, thorough ~10^7 schedules, ~5*10^5 runs plus a ThreadSanitizer pass. ")
+META.update({
+    "C08": E("bijection monitor over interning observations (value<->handle per revision) under schedule fuzzing",
+             CVOL + "Threads intern values from a tiny domain at top level and inside queries into constant-hash and real-hash types while "
+             "others read handles; per revision two equal values must yield one handle, unequal values different handles, field reads the "
+             "interned value, under shuttle schedules and on OS threads with a delay failpoint before the shard lock.",
+             CONC_NOTE, "E-sched + E-os"),
+    "C16": E("per-thread differential value oracle + deadlock detection (shuttle: all threads blocked; OS: protocol-level stuck state)",
+             CVOL + "2-4 threads with database clones request overlapping sets of functions of acyclic programs after a prior revision, so "
+             "verification, execution, blocking and retry paths run concurrently; every result must equal the reference, no schedule may "
+             "deadlock or exceed the step bound, an unexpected panic (e.g. a spurious cycle error) is a violation.",
+             CONC_NOTE, "E-sched + E-os"),
+    "C17": E("exactly-once counting monitor over WillExecute events per (key, revision) across handles",
+             CVOL + "Same executions as C16 without lru/cycles/cancellation/panics: two WillExecute events for one key (slot and generation) in "
+             "one revision are a violation.",
+             CONC_NOTE, "E-sched + E-os"),
+    "C18": E("per-thread differential value oracle (least fixpoint / SCC) + deadlock and livelock (step bound) detection",
+             CVOL + "2-3 threads enter generated fixpoint / cycle_result programs at different members (nested and conditional cycles, lock "
+             "ownership transfers between threads); every result must equal the single-threaded oracle of C12/C13, no schedule may "
+             "deadlock or exceed the step bound.",
+             CONC_NOTE, "E-sched + E-os"),
+    "C19": E("offline trace checker: recorded claim/wait/transfer protocol operations vs an abstract reference model",
+             CVOL + "Every BlockOn must be followed by exactly one Unblock and one Resume with the same outcome; no wait is entered while the "
+             "model has a wait path back (edges possibly re-pointed by a transfer are left out, so the check under-approximates); every "
+             "Unblock needs an admissible cause (release of the key, release of the transfer owner, hand-over) with the matching outcome; "
+             "Completed iff the releaser is not unwinding; a release wakes every modelled waiter of the key; first claims are exclusive; "
+             "nobody is left waiting at the end. The 'all reachable states, model checked' clause of the quantifier is NOT decided here: "
+             "only the states reached by the explored executions (counted in the evidence).",
+             CONC_NOTE, "E-sched + E-os"),
+    "C20": E("history monitors over writer/reader logs: write-vs-drop ordering, cancellation rule, per-revision value oracle",
+             CVOL + "One writer (input writes, synthetic writes, lru capacity changes, eviction triggers) and 1-2 readers that take clones from a "
+             "master handle: a write may complete only after every earlier clone started to be dropped; after the cancellation flag a reader that "
+             "checked for cancellation must not emit further events; reader results must equal the reference for the revision of their clone "
+             "(PendingWrite is the only accepted failure), and everything after the phase equals the reference of the final inputs "
+             "(provisional fixpoint memos of abandoned epochs included). OS threads only (see note).",
+             CONC_NOTE, "E-os"),
+    "C21": E("three-state cancellation monitor over Cancel/Call/Ret records + value oracle for the other handles",
+             CVOL + "A canceller thread fires tokens of 2-3 reader handles at random points: Cancelled::Local is legitimate only after an "
+             "unconsumed cancel() of that handle; a cancel that falls between two calls must make the next call (outside fixpoint iteration) "
+             "unwind; all other results equal the reference; no stuck state. OS threads only (see note).",
+             CONC_NOTE, "E-os"),
+    "C24": E("identity-distinctness and read-back monitor over concurrent creations",
+             CVOL + "2-4 threads create inputs directly, intern values and run makers on their own handles (handles are dropped at the end of the "
+             "phase): identities of inputs are pairwise distinct, every identity reads back the fields it was created with, interning stays "
+             "canonical, tracked-struct identities obey the identity monitor.",
+             CONC_NOTE, "E-sched + E-os"),
+})
+META["C14"]["engine"] = "E-single + E-os"
+META["C11"]["engine"] = "E-single + E-sched"
